@@ -14,8 +14,8 @@ ENV.pop("GOTOOLCHAIN", None); ENV.pop("GOSUMDB", None)
 
 
 def sh(cmd, cwd=None, timeout=1800, env=ENV, inp=None):
-    p = subprocess.run(cmd, cwd=cwd, capture_output=True, text=True, timeout=timeout, env=env, shell=isinstance(cmd, str), input=inp)
-    return p.returncode, (p.stdout + p.stderr)
+    p = subprocess.run(cmd, cwd=cwd, capture_output=True, timeout=timeout, env=env, shell=isinstance(cmd, str), input=inp.encode() if isinstance(inp, str) else inp)
+    return p.returncode, (p.stdout + p.stderr).decode('utf-8', 'replace')
 
 
 def run_demo(wt, src, demo):
@@ -29,8 +29,8 @@ def run_demo(wt, src, demo):
     if rc != 0:
         return 99, out
     with open("/dev/null") as dn:
-        p = subprocess.run(["bash", os.path.join(src, demo), os.path.join(wt, "_bin", "anonymongo")], cwd=wt, capture_output=True, text=True, env=ENV, stdin=dn, timeout=900)
-    return p.returncode, p.stdout + p.stderr
+        p = subprocess.run(["bash", os.path.join(src, demo), os.path.join(wt, "_bin", "anonymongo")], cwd=wt, capture_output=True, env=ENV, stdin=dn, timeout=900)
+    return p.returncode, (p.stdout + p.stderr).decode("utf-8", "replace")
 
 
 def confirm(src, sid, prop):
